@@ -63,6 +63,7 @@ const preludeSMT = `(set-option :produce-models true)
 (declare-datatypes ((View 0)) (((mkV (v_br Int) (v_svc Int) (v_pre String)))))
 (declare-datatypes ((Ctx 0)) (((mkC (c_br Int) (c_env Int)))))
 (declare-fun err_root (Int) Int)
+(declare-fun is_sentinel (Int) Bool)
 (declare-fun alive0 (Int) Bool)
 (declare-fun br_alive0 (Int) Bool)
 (declare-fun be64 (Int) String)
@@ -533,7 +534,7 @@ func (b *SMT) Sentinel(pkgPath, name string) string {
 		b.sentinels[c] = true
 		b.lines = append(b.lines, fmt.Sprintf("(declare-const %s Int)", c))
 		// each sentinel is non-nil and is its own root; roots of distinct sentinels are distinct
-		b.Assert(fmt.Sprintf("(and (> %s 0) (= (err_root %s) %s))", c, c, c))
+		b.Assert(fmt.Sprintf("(and (> %s 0) (= (err_root %s) %s) (is_sentinel %s))", c, c, c, c))
 		if len(b.sentinels) > 1 {
 			var all []string
 			for k := range b.sentinels {
